@@ -130,7 +130,24 @@ same class, or naming an attribute in a local, raises no alarm; see the comment 
     of a state-changing helper and in-place changes through a parameter are rejected (Unsupported, as an unknown call);
   * a local bound once, by `x = self.a` / `x = cast(C, self.a)` for a list / object attribute of the state, and read only in the
     statements that follow it in its block, none of which (up to the last read) can re-bind the attribute, is read as `self.a`
-    itself.  Otherwise the rule above stays: a second name for a list / object that may be changed in place is rejected."""
+    itself.  Otherwise the rule above stays: a second name for a list / object that may be changed in place is rejected.
+
+RENAMED PRIVATE ATTRIBUTES, AND MORE SPELLINGS OF THE SAME STATEMENTS (each is a rewriting of the parsed source before it is translated, or
+a normalisation of the term; the comment at each function says why it keeps the meaning):
+  * the private attributes that the configuration names (`self._buffer_pos`, `self.__previous_success`) are found by their ROLE in the
+    `__init__` of their class - position and kind of the initial value, see `attr_renames` - so a consistent rename gives the same term;
+    when `__init__` cannot be read that way the literal names are used;
+  * `any(<test> for x in l [if c])` / `all(..)` over a list or a range (generator expression or list comprehension) is
+    `l.any (fun x => test)` (`all` is written as its De Morgan dual);
+  * `for <targets> in self.g():` for a generator method g of the same class of the shape `<assignments>; for x in coll: <statements>;
+    yield <names>` is that loop with the caller's body in the place of the `yield` (`inline_generators`);
+  * `S; while c: B; S` is `while True: S; if not c: break; B` (`rotate_loops`); a bare `return` in the last loop of a function that
+    answers None is `break` (used where the loop changes its items: `do_for`);
+  * `self.h(x.m(d))` with an object-changing method call as an argument is `t = x.m(d); self.h(t)` (`hoist_arguments`); a list that
+    nothing changes in place may be given to a helper method that changes the state (`passable_list`);
+  * a local that only logging reads, with a right-hand side free of effects, goes away with the logging (`drop_log_temporaries`); a
+    column of a configured table that the function does not use may be unpacked into a name that nothing reads (as into `_`);
+  * the truth value of an Optional byte string is `x is not None and len(x) > 0` (one term for both spellings)."""
 from __future__ import annotations
 
 import ast
@@ -215,6 +232,7 @@ class _NeedExit(Exception):
 # ("rec", lean structure name, [(field, a) ..]) ("proj", a, "field" | "2.1")
 # ("nilof", list type) ("getq", l, i)  l[i]?   ("call", f, [args])  a callable value applied   ("ok", a) ("error", e)
 # ("cat", l, m)  l ++ m
+# ("anyl", item id, item type, name hint, body, l)   l.any (fun item => body): `any(<body> for item in l)`; `all(..)` is its De Morgan dual
 # ("again", head text, [state ..])   statement position: the recursive call of the auxiliary definition of a `while` loop
 # signed integers (type tag "sint", Lean Int): ("ilit", k) ("ofnat", a) ("ibin", op, a, b) ("ilt", a, b) ("ieq", a, b)
 # ("tonat", a)  a signed term that is known to be >= 0 (nonneg_sint), as a Nat
@@ -571,6 +589,8 @@ def children(e):
         return [v for _, v in e[2]]
     if t == "proj":
         return [e[1]]
+    if t == "anyl":
+        return [e[4], e[5]]
     return list(e[1:])
 
 
@@ -694,6 +714,10 @@ def show(e, names):
         return "{ " + ", ".join(f"{f} := {show(v, names)}" for f, v in e[2]) + f" : {e[1]} }}"
     if t == "proj":
         return f"{a(e[1])}.{e[2]}"
+    if t == "anyl":
+        if names is None:
+            return f"(any #{e[1]} {show(e[4], names)} {show(e[5], names)})"
+        return f"({a(e[5])}.any (fun ({names[e[1]]} : {LEAN_TY[e[2]]}) => {show(e[4], names)}))"
     if t == "letfold":                         # only for the canonical text
         return "(fold " + " ".join(show(c, names) for c in children(e)) + ")"
     raise Unsupported(f"internal: cannot print {t}")
@@ -706,6 +730,162 @@ def dotted(node):
         b = dotted(node.value)
         return None if b is None else b + "." + node.attr
     return None
+
+
+# ---------------------------------------------------------------- private attributes by ROLE
+# The configuration names the private attributes of a class (`self._buffer_pos`, `self.__previous_success`).  So that a consistent
+# RENAME of such an attribute raises no alarm, the names are resolved through the `__init__` of the class: INIT_ROLES holds, per class,
+# the attributes that `__init__` assigns (in order) as the configuration knows them, each with the KIND of its initial value
+# (init_kind: `bytearray()`, a literal, None, a constructor call, a parameter).  `attr_renames` reads the `__init__` of the class as it
+# is NOW and pairs the attributes up:
+#   0. an attribute that still has its configured name is itself (so reordering the statements of `__init__` renames nothing);
+#   1. the configured attributes that are gone and the attributes that are new, when they are equally many with the same kinds in the
+#      same order: by position ("the 2nd attribute, an int that starts at 0");
+#   2. else, those whose kind is unique on both sides (`HdlcFrame`: THE bytearray, THE FastFrameCheckSequence16) by their kind;
+#      an attribute that cannot be paired keeps its literal name.
+# Only private names are ever paired with a different name (a public attribute must keep its name).  The pairing is then applied to
+# the SOURCE: in every function of that class that is translated (configured functions, helpers, inlined properties) `self.<current>`
+# is read as `self.<configured>` (`configured_names`), so the rest of the translator sees the names of the configuration.  This is a
+# consistent renaming of attributes of one class (injective; rejected when a configured name is in use for something else in the
+# class: a method, a class constant, another attribute), so the translated term is the term of the renamed source - a wrong pairing
+# cannot hide a change, it can only make the equivalence proof fail.  When the `__init__` cannot be read this way (an attribute
+# assigned twice or under an `if`, other kinds, no pairing) nothing is renamed: the literal names are used, as before.
+# The AST keeps a name-mangled attribute unmangled (`self.__x`), so mangled names need no care here.
+INIT_ROLES = {}
+_RENAMES = {}
+
+
+def class_of(fobj):
+    """the class that defines the (unwrapped) function, found through its qualified name; None for a plain function"""
+    f = unwrap_fn(fobj)
+    f = inspect.unwrap(f) if callable(f) else f
+    glob = getattr(f, "__globals__", None)
+    qn = getattr(f, "__qualname__", "").split(".")
+    if not glob or len(qn) < 2 or "<locals>" in qn:
+        return None
+    owner = glob.get(qn[0])
+    for part in qn[1:-1]:
+        try:
+            owner = inspect.getattr_static(owner, part)
+        except AttributeError:
+            return None
+    return owner if inspect.isclass(owner) else None
+
+
+def init_kind(v, params):
+    """the kind of the initial value of an attribute (an expression of `__init__`)"""
+    if isinstance(v, ast.Constant):
+        if isinstance(v.value, bool):
+            return f"bool:{v.value}"
+        if isinstance(v.value, int):
+            return f"int:{v.value}"
+        if v.value is None:
+            return "none"
+        return "other"
+    if isinstance(v, ast.Call) and dotted(v.func) in ("bytearray", "bytes") and not v.args and not v.keywords:
+        return "bytes"
+    if isinstance(v, ast.List) and not v.elts:
+        return "list"
+    if isinstance(v, ast.Call) and dotted(v.func) is not None:
+        return "call:" + dotted(v.func)
+    if isinstance(v, ast.Name) and v.id in params:
+        return f"param:{params.index(v.id)}"
+    return "other"
+
+
+def init_signature(cls):
+    """[(attribute, kind) ..] of the statements `self.<attribute> [: T] = <value>` of the body of `cls.__init__`, in order; None when
+    the class has no `__init__` of its own, or when an attribute of self is assigned in any other way (twice, under an `if`, in a
+    loop, by a tuple / augmented assignment)"""
+    init = cls.__dict__.get("__init__")
+    if not inspect.isfunction(init):
+        return None
+    try:
+        fn = ast.parse(textwrap.dedent(inspect.getsource(init))).body[0]
+    except (OSError, TypeError, SyntaxError, IndexError):
+        return None
+    if not isinstance(fn, ast.FunctionDef) or not fn.args.args or fn.args.args[0].arg != "self":
+        return None
+    params = [a.arg for a in fn.args.args]
+    sig, plain = [], set()
+    for st in fn.body:
+        tg = st.targets[0] if isinstance(st, ast.Assign) and len(st.targets) == 1 else st.target if isinstance(st, ast.AnnAssign) and st.value is not None else None
+        if isinstance(tg, ast.Attribute) and isinstance(tg.value, ast.Name) and tg.value.id == "self":
+            sig.append((tg.attr, init_kind(st.value, params)))
+            plain.add(id(tg))
+    for x in ast.walk(fn):
+        if (isinstance(x, ast.Attribute) and isinstance(x.ctx, (ast.Store, ast.Del)) and isinstance(x.value, ast.Name) and x.value.id == "self"
+                and id(x) not in plain):
+            return None
+    if len({a for a, _ in sig}) != len(sig):
+        return None
+    return sig
+
+
+def attr_renames(cls):
+    """{current attribute name: configured attribute name} for the private attributes of cls that were renamed (see above)"""
+    if cls is None:
+        return {}
+    if cls in _RENAMES:
+        return _RENAMES[cls]
+    _RENAMES[cls] = {}
+    want = INIT_ROLES.get((getattr(cls, "__module__", ""), getattr(cls, "__qualname__", "")))
+    have = init_signature(cls) if want else None
+    if not want or not have:
+        return {}
+    # an attribute that still has its configured name is itself (reordering `__init__` renames nothing); the others are paired up
+    now = {h for h, _ in have}
+    known = {w for w, _ in want}
+    want = [(w, k) for w, k in want if w not in now]
+    have = [(h, k) for h, k in have if h not in known]
+    pairs = []
+    if [k for _, k in want] == [k for _, k in have]:
+        pairs = [(h, w) for (w, _), (h, _) in zip(want, have)]
+    else:
+        wk, hk = [k for _, k in want], [k for _, k in have]
+        for w, k in want:
+            if k != "other" and wk.count(k) == 1 and hk.count(k) == 1:
+                pairs.append((have[hk.index(k)][0], w))
+    ren = {h: w for h, w in pairs if h != w}
+    if not ren:
+        return {}
+    ok = all(h.startswith("_") and w.startswith("_") for h, w in ren.items()) and len(set(ren.values())) == len(ren)
+    # a configured name that comes into use must be free in the class: no method / constant of that name (in the class or its
+    # bases), no attribute access of that name anywhere in the class body (unless that name is itself renamed away)
+    try:
+        body = ast.parse(textwrap.dedent(inspect.getsource(cls)))
+    except (OSError, TypeError, SyntaxError):
+        ok = False
+    if ok:
+        used = {x.attr for x in ast.walk(body) if isinstance(x, ast.Attribute)} | {x.id for x in ast.walk(body) if isinstance(x, ast.Name)}
+        for h, w in ren.items():
+            mangled = "_" + cls.__name__.lstrip("_") + w if w.startswith("__") and not w.endswith("__") else w
+            try:
+                inspect.getattr_static(cls, mangled)
+                ok = False
+            except AttributeError:
+                pass
+            if w in used and w not in ren:
+                ok = False
+    if ok:
+        _RENAMES[cls] = ren
+    return _RENAMES[cls]
+
+
+def configured_names(fobj, tree):
+    """the parsed source of a function of a class, with `self.<current name>` read as `self.<configured name>` (attr_renames)"""
+    ren = attr_renames(class_of(fobj))
+    if ren:
+        for x in ast.walk(tree):
+            if isinstance(x, ast.Attribute) and isinstance(x.value, ast.Name) and x.value.id == "self" and x.attr in ren:
+                x.attr = ren[x.attr]
+    return tree
+
+
+def parse_function(fobj):
+    """the ast.FunctionDef of a function object (a property / static method is unwrapped), in the names of the configuration"""
+    f = unwrap_fn(fobj)
+    return configured_names(f, ast.parse(textwrap.dedent(inspect.getsource(f)))).body[0]
 
 
 def unify(ta, tb):
@@ -828,6 +1008,7 @@ class Fn:
         self.memo = {}                    # (analysis, helper name) -> bool
         self.retk = None                  # inside a helper: what its `return` means (function of environment, term, type, value node)
         self.in_helper = False
+        self.end_k = None                 # the continuation "the function ends here" of the function being translated
         self.frozen = set()               # parameters of the helper that hold a list / an object of the caller: not changed in place
         self.scope = None                 # the python function whose module / class resolves named constants (None: self.obj)
         self.inlining = []                # names of the helpers being translated (recursion is rejected)
@@ -842,7 +1023,7 @@ class Fn:
     def lname(self, py):
         if py in self.mutates:
             return self.mutates[py][0]
-        py = py.split(".")[-1].lstrip("$")
+        py = re.sub(r"^\$g\d+_", "", py.split(".")[-1]).lstrip("$")
         return py.replace("_", "v_", 1) if py.startswith("_") else py
 
     # ---------------------------------------------------------------- conversions
@@ -868,8 +1049,8 @@ class Fn:
             return mk_oget(e, FALSE)
         if t == "list":
             return mk_lt(lit(0), ("len", e))
-        if t == "optlist":
-            return mk_lt(lit(0), ("len", mk_oget(e, NIL)))
+        if t == "optlist":                # (`x is not None and len(x) > 0` is the same term)
+            return mk_and([mk_is_some(e), mk_lt(lit(0), ("len", mk_oget(e, NIL)))])
         if t == "none":
             return FALSE
         if elem_type(t) is not None:      # a list of objects
@@ -1161,6 +1342,29 @@ class Fn:
                 if tst != "int":
                     raise Unsupported(f"find() from a {tst}")
                 return ("app", "Amshan.GenRt.findFrom", [l, v, st]), "sint"
+            if f in ("any", "all") and len(n.args) == 1 and isinstance(n.args[0], (ast.GeneratorExp, ast.ListComp)) and f not in env:
+                # any(<test> for x in l [if c]) / all(..): `l.any (fun x => test)`; all is `not any(not test)`.  The tests have no
+                # effects (a call that changes something is rejected inside an expression), so the short-circuit cannot be seen
+                g = n.args[0]
+                if len(g.generators) != 1 or g.generators[0].is_async or not isinstance(g.generators[0].target, ast.Name):
+                    raise Unsupported(f"{f}() over more than one `for` / a tuple target")
+                gen = g.generators[0]
+                x = gen.target.id
+                if x == "self" or x in self.mutates or x in self.detached:
+                    raise Unsupported(f"{f}(): the variable {x}")
+                coll, ity = self.loop_coll(gen, env)
+                item = self.new_id(self.lname(x))
+                benv = dict(env)
+                benv[x] = V(("var", item), ity, False)
+                self.readonly_items.append(x)
+                try:
+                    conds = [self.truth(c, benv) for c in gen.ifs]
+                    test = self.truth(g.elt, benv)
+                finally:
+                    self.readonly_items.pop()
+                if f == "any":
+                    return ("anyl", item, ity, self.lname(x), mk_and(conds + [test]), coll), "bool"
+                return mk_not(("anyl", item, ity, self.lname(x), mk_and(conds + [mk_not(test)]), coll)), "bool"
             if f in ("max", "min") and len(n.args) == 2:
                 a, ta = self.expr(n.args[0], env)
                 b, tb = self.expr(n.args[1], env)
@@ -1254,7 +1458,7 @@ class Fn:
         if isinstance(obj, _Missing):
             raise Unsupported(f"{obj.path} does not exist in the source")
         try:
-            fn = ast.parse(textwrap.dedent(inspect.getsource(unwrap_fn(obj)))).body[0]
+            fn = parse_function(obj)
         except (OSError, TypeError, SyntaxError) as ex:
             raise Unsupported(f"the source of {d} cannot be read: {ex}")
         body = [x for x in fn.body if not self.skipped(x)]
@@ -1331,7 +1535,7 @@ class Fn:
             return None
         f = unwrap_fn(raw)
         try:
-            fn = ast.parse(textwrap.dedent(inspect.getsource(f))).body[0]
+            fn = parse_function(f)
         except (OSError, TypeError, SyntaxError, IndexError):
             return None
         if not isinstance(fn, ast.FunctionDef) or fn.args.vararg or fn.args.kwarg or fn.args.kwonlyargs or fn.args.defaults or fn.args.posonlyargs:
@@ -1346,6 +1550,8 @@ class Fn:
         if any(isinstance(x, (ast.Yield, ast.YieldFrom, ast.Await, ast.Global, ast.Nonlocal, ast.FunctionDef, ast.Lambda, ast.ClassDef))
                for st in fn.body for x in ast.walk(st)):
             return None
+        self.drop_log_temporaries(fn)
+        self.rotate_loops(fn)
         h = Helper(parts[1], kind, fn, params, f)
         self.helper_cache[d] = h
         self.resolve_aliases(fn)
@@ -1581,11 +1787,26 @@ class Fn:
                 arg = arg.args[1]          # typing.cast is the identity at run time: the helper gets the value itself (None stays None)
             e, te = self.expr(arg, env)
             if elem_type(te) is not None or OPT_BASE.get(te, te) in OBJECTS:
-                if self.changes_state(h):
+                if self.changes_state(h) and not self.passable_list(arg, te):
                     raise Unsupported(f"a list / an object is passed to the helper method {h.name}, which changes the state (a second name)")
                 frozen.add(p)
             henv[p] = V(e, te, False)
         return henv, frozen
+
+    def passable_list(self, arg, te):
+        """may the list `arg` (of type te) be given to a helper method that changes the state?  The parameter is a second name for
+        it; the helper cannot change it through the parameter (`frozen`).  Accepted when nothing else can change it either while
+        the helper runs: no statement of the function or of its helpers changes a list of that name in place (`appended`: the
+        rule for `x = y` between two names of a list), and its items are no objects that a configured method changes."""
+        et = elem_type(te)
+        if et is None:
+            return False
+        if et in OBJECTS and any(sig[2].startswith("mut") for sig in self.objmethods.get(et, {}).values()):
+            return False
+        while isinstance(arg, ast.Call) and dotted(arg.func) == "cast" and len(arg.args) == 2 and not arg.keywords:
+            arg = arg.args[1]
+        names = {dotted(x) for x in ast.walk(arg) if isinstance(x, (ast.Name, ast.Attribute))}
+        return not any(d in self.appended or d in self.detached for d in names if d is not None)
 
     def enter_helper(self, h, frozen, ret):
         self.retk = ret
@@ -1692,6 +1913,36 @@ class Fn:
         finally:
             self.ctx_set(outer)
 
+    def hoist_arguments(self, st, env):
+        """`self.h(x.m(d))` / `v = self.h(..)` / `return self.h(..)` for a helper / translated method / recorded effect h, with an
+        argument that is the call of an object-changing method (`self._selected_reader.read(data)`: only a statement of its own
+        is translated): the arguments up to the last such call are bound to fresh locals first, left to right - Python's order
+        of evaluation (the callee `self.h` is a bound method: looking it up has no effect).  Answers the statements, or None."""
+        call = st.value if isinstance(st, (ast.Expr, ast.Assign, ast.Return)) else None
+        if not isinstance(call, ast.Call) or call.keywords or any(isinstance(a, ast.Starred) for a in call.args):
+            return None
+        f = dotted(call.func)
+        if not (f in self.selfcalls or f in self.effects or self.helper_call(call) is not None):
+            return None
+        muts = [j for j, a in enumerate(call.args) if isinstance(a, ast.Call) and self.mut_value_call(a, env) is not None]
+        if not muts:
+            return None
+        out, args = [], list(call.args)
+        for j in range(muts[-1] + 1):
+            if isinstance(args[j], ast.Constant):
+                continue
+            tmp = "$a%d" % self.new_id("arg")
+            out.append(ast.copy_location(ast.Assign(targets=[ast.Name(id=tmp, ctx=ast.Store())], value=args[j]), st))
+            args[j] = ast.copy_location(ast.Name(id=tmp, ctx=ast.Load()), args[j])
+        new = copy.copy(st)
+        new.value = ast.copy_location(ast.Call(func=call.func, args=args, keywords=[]), call)
+        out.append(new)
+        for x in out:
+            ast.fix_missing_locations(x)
+        for j, x in enumerate(out):
+            self.following[id(x)] = out[j + 1:] + self.following.get(id(st), [])
+        return out
+
     def rebinds(self, st, a):
         """may the statement re-bind the attribute a (an assignment, a translated method / a helper that changes the state)?"""
         for x in ast.walk(st):
@@ -1709,6 +1960,177 @@ class Fn:
                 if g is not None and self.changes_state(g):
                     return True
         return False
+
+    def drop_log_temporaries(self, fn):
+        """A local that only logging calls read (or nothing), bound by plain assignments `x = <expression>` whose right-hand sides
+        are built from names, attributes, constants, operators and pure builtins / pure methods of values (`raw = message.as_bytes`,
+        `text = raw.hex() if raw else "-"`), goes away with the logging: its assignments become `pass`.  (The arguments of a
+        logging call are taken to be free of effects already; this is the same expression, given a name.)"""
+        params = {a.arg for a in fn.args.args}
+        logged = {id(y) for x in ast.walk(fn) if isinstance(x, ast.Expr) and self.skipped(x) for y in ast.walk(x)}
+        binds, other = {}, set()
+        for x in ast.walk(fn):
+            if isinstance(x, ast.Assign) and len(x.targets) == 1 and isinstance(x.targets[0], ast.Name):
+                binds.setdefault(x.targets[0].id, []).append(x)
+        plain = {id(b.targets[0]) for bs in binds.values() for b in bs}
+        for x in ast.walk(fn):
+            if isinstance(x, ast.Name):
+                if not isinstance(x.ctx, ast.Load) and id(x) not in plain:
+                    other.add(x.id)
+        configured_methods = {m for ms in self.objmethods.values() for m in ms} | set(self.listmethods)
+
+        def pure(v):
+            for y in ast.walk(v):
+                if isinstance(y, (ast.Await, ast.Yield, ast.YieldFrom, ast.NamedExpr, ast.Lambda, ast.ListComp, ast.SetComp, ast.DictComp, ast.GeneratorExp, ast.Starred)):
+                    return False
+                if isinstance(y, ast.Call):
+                    f = dotted(y.func)
+                    if f in PURE_BUILTINS and f not in binds and f not in params:
+                        continue
+                    if (isinstance(y.func, ast.Attribute) and y.func.attr in PURE_METHODS and y.func.attr not in configured_methods
+                            and not self.configured(f or "")):
+                        continue
+                    return False
+            return True
+        # a temporary may be built from other such temporaries: to a fixed point
+        drop = {x for x in binds if x not in params and x not in other and x != "self" and all(pure(b.value) for b in binds[x])}
+        while True:
+            # a read inside the right-hand side of a temporary that is dropped does not count
+            inside = {id(y) for x in drop for b in binds[x] for y in ast.walk(b.value)}
+            keep = {x.id for x in ast.walk(fn) if isinstance(x, ast.Name) and isinstance(x.ctx, ast.Load) and id(x) not in logged and id(x) not in inside}
+            new = {x for x in drop if x not in keep}
+            if new == drop:
+                break
+            drop = new
+        if not drop:
+            return
+        gone = {id(b) for x in drop for b in binds[x]}
+        for x in ast.walk(fn):
+            for field in ("body", "orelse", "finalbody"):
+                blk = getattr(x, field, None)
+                if isinstance(blk, list):
+                    for j, y in enumerate(blk):
+                        if id(y) in gone:
+                            blk[j] = ast.copy_location(ast.Pass(), y)
+
+    def generator_of(self, call, fobj):
+        """the parsed generator method g behind `self.g()` (no arguments), a method of the class of `fobj` that the configuration
+        does not name, when it has the one shape that is inlined (see inline_generators); else None"""
+        d = dotted(call.func) if isinstance(call, ast.Call) and not call.args and not call.keywords else None
+        parts = (d or "").split(".")
+        if len(parts) != 2 or parts[0] != "self" or self.configured(d):
+            return None
+        cls = class_of(fobj)
+        try:
+            raw = inspect.getattr_static(cls, parts[1]) if cls is not None else None
+        except AttributeError:
+            return None
+        if not inspect.isfunction(raw):
+            return None
+        try:
+            g = parse_function(raw)
+        except (OSError, TypeError, SyntaxError, IndexError):
+            return None
+        if (not isinstance(g, ast.FunctionDef) or g.decorator_list or [a.arg for a in g.args.args] != ["self"] or g.args.vararg or g.args.kwarg
+                or g.args.kwonlyargs or g.args.posonlyargs):
+            return None
+        body = [x for x in g.body if not self.skipped(x)]
+        if not body or not isinstance(body[-1], ast.For) or body[-1].orelse or not isinstance(body[-1].target, ast.Name):
+            return None
+        loop = body[-1]
+        inner = [x for x in loop.body if not self.skipped(x)]
+        if not inner or not (isinstance(inner[-1], ast.Expr) and isinstance(inner[-1].value, ast.Yield) and inner[-1].value.value is not None):
+            return None
+        y = inner[-1].value
+        for x in ast.walk(g):
+            if isinstance(x, (ast.YieldFrom, ast.Return, ast.Try, ast.With, ast.While, ast.Await, ast.Global, ast.Nonlocal, ast.FunctionDef, ast.Lambda,
+                              ast.ClassDef, ast.Break, ast.Continue, ast.NamedExpr, ast.Delete)) and x is not g:
+                return None
+            if isinstance(x, ast.Yield) and x is not y:
+                return None
+            if isinstance(x, ast.For) and x is not loop:
+                return None
+            if isinstance(x, (ast.Attribute, ast.Subscript)) and isinstance(x.ctx, (ast.Store, ast.Del)):
+                return None                     # (a generator that changes the object is not inlined)
+        elts = y.value.elts if isinstance(y.value, ast.Tuple) else [y.value]
+        if not all(isinstance(e, (ast.Name, ast.Constant)) for e in elts):
+            return None
+        return body[:-1], loop, inner[:-1], y.value
+
+    def inline_generators(self, fn, fobj):
+        """`for <targets> in self.g():` for a GENERATOR method g of the same class of the shape
+
+            <assignments to locals>                   for <targets> in self.g():         is        <assignments to locals>
+            for x in <collection>:                        <body>                                   for x in <collection>:
+                <statements without yield>                                                             <statements without yield>
+                yield <names / constants>                                                              <targets> = <the yielded names>
+                                                                                                       <body>
+        with the locals of g renamed apart.  That is the order in which Python runs these statements: calling g runs nothing; the
+        first `next()` - the first thing the `for` does - runs g up to its first `yield`, every other one resumes g after the `yield`,
+        which is the end of the body of its loop, and nothing follows that loop.  Leaving the caller's loop early (`break`, `return`, an
+        exception) closes the generator, which has no `try` / `with` to notice it; an exception inside g comes out of the `for`
+        statement, outside any `try` of the caller's body, and so it does here.  The attributes of self that g reads are read at the
+        same moments.  A target `_` is not bound."""
+        count = 0
+        for x in list(ast.walk(fn)):
+            for field in ("body", "orelse", "finalbody"):
+                blk = getattr(x, field, None)
+                if not (isinstance(blk, list) and blk and isinstance(blk[0], ast.stmt)):
+                    continue
+                j = 0
+                while j < len(blk):
+                    st = blk[j]
+                    j += 1
+                    if not isinstance(st, ast.For) or st.orelse:
+                        continue
+                    found = self.generator_of(st.iter, fobj)
+                    if found is None:
+                        continue
+                    pre, loop, inner, yielded = copy.deepcopy(found)
+                    own = {n.id for part in pre + [loop] for n in ast.walk(part) if isinstance(n, ast.Name) and isinstance(n.ctx, ast.Store)}
+                    free = {n.id for part in pre + [loop] for n in ast.walk(part) if isinstance(n, ast.Name)} - own - {"self"}
+                    if free & ({a.arg for a in fn.args.args} | {n.id for n in ast.walk(fn) if isinstance(n, ast.Name) and isinstance(n.ctx, ast.Store)}):
+                        continue               # (a global name of the generator is a local of the caller)
+                    targets = st.target.elts if isinstance(st.target, ast.Tuple) else [st.target]
+                    values = yielded.elts if isinstance(yielded, ast.Tuple) else [yielded]
+                    if isinstance(st.target, ast.Tuple) != isinstance(yielded, ast.Tuple) or len(targets) != len(values) or not all(isinstance(t, ast.Name) for t in targets):
+                        continue
+                    count += 1
+                    for part in pre + [loop]:
+                        for n in ast.walk(part):
+                            if isinstance(n, ast.Name) and n.id in own:
+                                n.id = "$g%d_%s" % (count, n.id)
+                    binds = [ast.Assign(targets=[ast.Name(id=t.id, ctx=ast.Store())], value=v) for t, v in zip(targets, values) if t.id != "_"]
+                    loop.body = inner + binds + st.body
+                    new = pre + [loop]
+                    for n in new:
+                        ast.copy_location(n, st)
+                        ast.fix_missing_locations(n)
+                    blk[j - 1:j] = new
+                    j += len(new) - 1
+
+    def rotate_loops(self, fn):
+        """`S; while c: B; S` for one and the same assignment S (`line = self._buffer.pop()` before the loop and as the last statement
+        of its body) is `while True: S; if not c: break; B` - the same statements in the same order, as long as no `continue` of
+        the loop skips the S at the end of the body (then the loop is left as it is)."""
+        for x in ast.walk(fn):
+            for field in ("body", "orelse", "finalbody"):
+                blk = getattr(x, field, None)
+                if not (isinstance(blk, list) and blk and isinstance(blk[0], ast.stmt)):
+                    continue
+                for i in range(len(blk) - 1):
+                    first, loop = blk[i], blk[i + 1]
+                    if not (isinstance(first, (ast.Assign, ast.AnnAssign)) and isinstance(loop, ast.While) and not loop.orelse and len(loop.body) >= 1):
+                        continue
+                    if isinstance(loop.test, ast.Constant) or ast.dump(loop.body[-1]) != ast.dump(first):
+                        continue
+                    if any(isinstance(y, ast.Continue) for y in self.own_exits(loop.body)):
+                        continue
+                    leave = ast.If(test=ast.UnaryOp(op=ast.Not(), operand=loop.test), body=[ast.Break()], orelse=[])
+                    new = ast.While(test=ast.Constant(value=True), body=[first, leave] + loop.body[:-1], orelse=[])
+                    blk[i] = ast.copy_location(ast.Pass(), first)
+                    blk[i + 1] = ast.copy_location(new, loop)
+                    ast.fix_missing_locations(blk[i + 1])
 
     def resolve_aliases(self, fn):
         """READ-ONLY LOCAL ALIASES.  A local that is bound exactly once, by `x = self.a` / `x = cast(C, self.a)` for an attribute a
@@ -2192,7 +2614,7 @@ class Fn:
         if g.failed or isinstance(g.obj, _Missing):
             return False
         try:
-            body = ast.parse(textwrap.dedent(inspect.getsource(unwrap_fn(g.obj)))).body[0].body
+            body = parse_function(g.obj).body
         except (OSError, TypeError, SyntaxError):
             return False
         for y in body:
@@ -2410,7 +2832,7 @@ class Fn:
             raise Unsupported("slice of a table")
         idx = self.to_int(*self.expr(st.value.slice, env))
         err = self.raise_term(("const", "PyExc.indexError"), env)
-        used = [(x.id, col) for x, col in zip(target.elts, tab["cols"]) if x.id != "_"]
+        used = [(x.id, col) for x, col in zip(target.elts, tab["cols"]) if x.id != "_" and not (col is None and x.id in self.never_read)]
         if any(col is None for _, col in used):
             raise Unsupported("a column of the table that is not configured is read")
         if any(n in self.mapping or n in self.mutates for n, _ in used):
@@ -2478,6 +2900,9 @@ class Fn:
                 if not (self.mutates or self.ghosts):
                     return self.bind_call(st.value, env, "v", lambda v, t, e: self.answer(self.coerce(v, t, self.ret_tag())))
                 return self.bind_call(st.value, env, "v", lambda v, t, e: self.answer(self.final_state(e, self.coerce(v, t, self.pyret))))
+            hoisted = self.hoist_arguments(st, env)
+            if hoisted is not None:
+                return self.block(hoisted + rest, env, k)
             hs = self.helper_stmt(st)
             if hs is not None and hs[0] == "return" and (self.changes_state(hs[2]) or not self.joinable(hs[2])):
                 # `return self.h(..)` for a helper that is no plain value is `t = self.h(..)`, `return t` for a fresh local t
@@ -2613,6 +3038,18 @@ class Fn:
         if not isinstance(st.target, ast.Name):
             raise Unsupported("for target")
         mut = self.changes_items(st, env)
+        if (mut and self.at_end(rest, k) and self.pyret is None and not self.cx.levels and not self.in_while
+                and any(isinstance(x, ast.Return) for x in ast.walk(st))):
+            # the last statement of a function that answers None: a bare `return` at the level of this loop is `break` (a loop
+            # that changes its items has no other way out: see `leave`)
+            old, st = st, self.returns_to_breaks(st)
+            self.following[id(st)] = self.following.get(id(old), [])
+            for x in ast.walk(st):
+                for field in ("body", "orelse", "finalbody"):
+                    blk = getattr(x, field, None)
+                    if isinstance(blk, list):
+                        for j, y in enumerate(blk):
+                            self.following[id(y)] = blk[j + 1:]
         L = dotted(st.iter)
         if L is not None and any(isinstance(x, ast.Call) and dotted(x.func) in (L + ".clear", L + ".append") for x in ast.walk(st)):
             # the list that is iterated over is changed in place by the body: python's iterator sees that.  Handled (for
@@ -2631,6 +3068,28 @@ class Fn:
         if self.in_while:
             raise Unsupported("for loop with an early exit inside `while True`")
         return self.do_for_exit(st, rest, env, k, mut)
+
+    def at_end(self, rest, k):
+        """does nothing follow (the function ends after `rest`, which is empty up to logging)?"""
+        return k is self.end_k and all(self.skipped(x) for x in rest)
+
+    @staticmethod
+    def returns_to_breaks(st):
+        """a copy of the `for` statement in which the bare `return`s that are not inside an inner loop are `break`s"""
+        st = copy.deepcopy(st)
+
+        class Sub(ast.NodeTransformer):
+            def visit_For(self, n):
+                return n
+            visit_While = visit_FunctionDef = visit_Lambda = visit_For
+
+            def visit_Return(self, n):
+                if n.value is None or (isinstance(n.value, ast.Constant) and n.value.value is None):
+                    return ast.copy_location(ast.Break(), n)
+                return n
+        st.body = [Sub().visit(x) for x in st.body]
+        ast.fix_missing_locations(st)
+        return st
 
     @staticmethod
     def early_exit(st):
@@ -2979,6 +3438,18 @@ class Fn:
         self.name_binders(body, taken, names)
         self.name_binders(rest, taken, names)
 
+    def name_lambdas(self, e, taken, names):
+        """names for the variables bound inside expressions (`l.any (fun x => ..)`)"""
+        if e[0] == "anyl" and e[1] not in names:
+            n, i = e[3], 0
+            while n in taken:
+                i += 1
+                n = f"{e[3]}_{i}"
+            taken.add(n)
+            names[e[1]] = n
+        for c in children(e):
+            self.name_lambdas(c, taken, names)
+
     def lines(self, e, names, ind):
         """Lean text (lines) of a statement-position term"""
         pad = "  " * ind
@@ -3060,8 +3531,7 @@ class Fn:
         for g in self.depends:
             if g.failed or isinstance(g.obj, _Missing):
                 raise Unsupported(f"the function {g.name}, which the configuration of this one uses, is not translatable")
-        src = textwrap.dedent(inspect.getsource(unwrap_fn(self.obj)))
-        return self.render(self.term(ast.parse(src).body[0]))
+        return self.render(self.term(parse_function(self.obj)))
 
     def term(self, fn):
         """the term of the function definition `fn` (an ast.FunctionDef); loops of `while True` go to self.aux"""
@@ -3084,6 +3554,9 @@ class Fn:
                 raise Unsupported(f"parameter {a.arg} is not configured")
         fn = copy.deepcopy(fn)                 # (read-only aliases are resolved in place)
         self.helper_cache, self.memo = {}, {}
+        self.inline_generators(fn, self.obj)
+        self.drop_log_temporaries(fn)
+        self.rotate_loops(fn)
         self.retk, self.in_helper, self.frozen, self.scope, self.inlining, self.assigning = None, False, set(), None, [], []
         self.resolve_aliases(fn)
         # the helper methods (of the same class, not named by the configuration) that the function uses, directly or through
@@ -3096,6 +3569,9 @@ class Fn:
             self.order += [d for d in self.assigned(h.fn.body) if d not in self.order]
         self.order = [d for d in self.mutates if d in self.order] + [d for d in self.order if d not in self.mutates]
         self.loop_targets = {x.target.id for x in nodes if isinstance(x, ast.For) and isinstance(x.target, ast.Name)}
+        # locals that nothing reads (a column of a table that the function does not use may be unpacked into such a name, as into `_`)
+        self.never_read = ({x.id for x in nodes if isinstance(x, ast.Name) and isinstance(x.ctx, ast.Store)}
+                           - {x.id for x in nodes if isinstance(x, ast.Name) and isinstance(x.ctx, ast.Load)})
         self.appends = any(isinstance(x, ast.Call) and (dotted(x.func) or "").endswith((".append", ".clear", ".extend")) for x in nodes)
         self.cur_stmt = None
         # the lists that are changed in place: a second name for one of them is rejected (every group of names for one
@@ -3139,6 +3615,7 @@ class Fn:
             if self.ret_tag() in OPT_BASE:             # falling off the end answers None
                 return self.answer(NONE)
             raise Unsupported("the function can end without a return")
+        self.end_k = end
         ir = self.prune(self.block(fn.body, env, end))
         if size(ir) > MAX_SIZE:
             raise Unsupported("the translation is too large")
@@ -3159,9 +3636,11 @@ class Fn:
                 taken.add(n)
                 names[i] = n if i in ub else "_" + n
             self.name_binders(body, taken, names)
+            self.name_lambdas(body, taken, names)
             out.append("\n".join(head + ["  | fuel + 1" + "".join(", " + names[i] for i in ids) + " =>"] + self.lines(body, names, 2)))
         names = {}
         self.name_binders(ir, taken, names)
+        self.name_lambdas(ir, taken, names)
         head = f"def {self.name} " + (self.tparams + " " if self.tparams else "") + " ".join(f"({n} : {t})" for n, t in self.params) + f" : {self.ret} :="
         out.append("\n".join([head] + self.lines(ir, names, 1)))
         return "\n\n".join(out)
@@ -3172,6 +3651,22 @@ def generate(han):
     # attribute look-ups through _Safe never raise: a function the changed source no longer has becomes a _Missing
     # object, whose translation is reported as a problem (and a stub) for that one function only
     ffc, hdlc, dlde, mc = (_Safe(han[k], k) for k in ("fastframecheck", "hdlc", "dlde", "meter_connection"))
+    # the `__init__` of the classes whose private attributes the configuration below names, as the configuration knows them: the
+    # attributes in order, each with the kind of its initial value (see `attr_renames`: a renamed private attribute is found by its role)
+    _RENAMES.clear()
+    INIT_ROLES.clear()
+    INIT_ROLES.update({
+        ("han.fastframecheck", "FastFrameCheckSequence16"): [("_crc_value", "other")],
+        ("han.hdlc", "HdlcFrameHeader"): [("_frame", "param:1"), ("_control_position", "none"), ("_is_header_good", "none")],
+        ("han.hdlc", "HdlcFrame"): [("_frame_data", "bytes"), ("_ffc", "call:fastframecheck.FastFrameCheckSequence16"), ("_escape_next", "bool:False"),
+                                    ("_header", "call:HdlcFrameHeader")],
+        ("han.hdlc", "HdlcFrameReader"): [("_use_octet_stuffing", "param:1"), ("_use_abort_sequence", "param:2"), ("_unescape_next", "bool:False"),
+                                          ("_buffer", "call:_ReaderBuffer"), ("_raw_frame_data", "bytes"), ("_frame", "none")],
+        ("han.hdlc", "_ReaderBuffer"): [("_buffer", "bytes"), ("_buffer_pos", "int:0")],
+        ("han.dlde", "_ReaderBuffer"): [("_buffer", "bytes"), ("_buffer_pos", "int:0")],
+        ("han.dlde", "ModeDReader"): [("_buffer", "call:_ReaderBuffer"), ("_raw_data", "bytes"), ("_is_int_hunt_mode", "bool:True")],
+        ("han.autodecoder", "AutoDecoder"): [("__previous_success", "none")],
+    })
     if "common" not in han:
         han = dict(han, common=__import__("importlib").import_module("han.common"))
     F = ffc.FastFrameCheckSequence16
